@@ -14,12 +14,12 @@ import (
 
 func init() {
 	simrt.Register(&simrt.Scenario{
-		Prop: "C09", Name: "window-wire", Count: tiered(4000, 80000),
+		Prop: "C09", Name: "window-wire", Count: tiered(4000, 640000),
 		Run: c09Wire, MaxOps: 3 << 20, Horizon: 4 * time.Hour,
 		Doc: "bidirectional traffic over a lossy transport; at every transmission: white-box queue invariants on the sending endpoint and black-box first-transmissions minus cumulatively acknowledged <= N on the wire",
 	})
 	simrt.Register(&simrt.Scenario{
-		Prop: "C09", Name: "send-blocks", Count: tiered(1500, 6000),
+		Prop: "C09", Name: "send-blocks", Count: tiered(1500, 48000),
 		Run: c09Blocks, MaxOps: 2 << 20, Horizon: 2 * time.Hour,
 		Doc: "acknowledgements blacked out after the handshake: exactly N Sends return, the next one blocks until the blackout ends and an ACK frees a slot",
 	})
